@@ -32,10 +32,11 @@ StructureObs(dump, s) ==
    \* combined_char_partition groups only characters with identical successors in every state
    <<"combined_partition_sound", \A j, k \in R : cls(j) = cls(k) => \A q \in 1..n : dump.delta[q][j] = dump.delta[q][k]>>,
    \* pick_alphabet: one character of each class, in class order (intervals, then the complement if non-empty)
+   \* pick_alphabet: exactly one character of each class of the combined partition (any order)
    <<"pick_alphabet",
        /\ nalpha = Len(s.classes) + (IF s.comp_empty THEN 0 ELSE 1)
-       /\ \A i \in 1..Len(s.classes) : i <= nalpha => ClassIdx(s.classes, s.alphabet[i]) = i
-       /\ (~s.comp_empty) => (nalpha >= 1 /\ ~InRanges(s.classes, s.alphabet[nalpha]) /\ s.alphabet[nalpha] <= 196607)
+       /\ \A i \in 1..Len(s.classes) : Cardinality({k \in 1..nalpha : ClassIdx(s.classes, s.alphabet[k]) = i}) = 1
+       /\ (~s.comp_empty) => Cardinality({k \in 1..nalpha : ~InRanges(s.classes, s.alphabet[k]) /\ s.alphabet[k] <= 196607}) = 1
        /\ s.comp_empty = (\A j \in R : InRanges(s.classes, dump.reps[j]))>>,
    \* compile_successors: every cell equals the id of next(state, alphabet[i])
    <<"successor_table",
@@ -44,17 +45,20 @@ StructureObs(dump, s) ==
    \* ... and next on the alphabet characters is next on the representatives of the same class
    <<"alphabet_consistent_with_next",
        \A i \in 1..nalpha : \A j \in R :
-          (IF i <= Len(s.classes) THEN cls(j) = i ELSE cls(j) = 0) => \A q \in 1..n : s.by_next[q][i] = dump.delta[q][j]>>,
+          cls(j) = ClassIdx(s.classes, s.alphabet[i]) => \A q \in 1..n : s.by_next[q][i] = dump.delta[q][j]>>,
    \* edges(s): one entry per class of the state's own partition, then Complement iff there is a default
+   \* edges(q): exactly one entry per class of the state's own partition (any order), leading where next leads
    <<"edges",
        \A q \in 1..n :
-          LET st == dump.states[q] e == s.edges[q] nr == Len(st.ranges) IN
+          LET st == dump.states[q] e == s.edges[q] nr == Len(st.ranges)
+              EdgeOf(cid) == {k \in 1..Len(e) : e[k].cid = cid} IN
           /\ Len(e) = nr + (IF st.default THEN 1 ELSE 0)
-          /\ \A a \in 1..nr : a <= Len(e) =>
-                /\ e[a].cid = a - 1
-                /\ \A j \in R : (st.ranges[a][1] <= dump.reps[j] /\ dump.reps[j] <= st.ranges[a][2]) => dump.delta[q][j] = e[a].to
-          /\ st.default => (Len(e) = nr + 1 /\ e[nr + 1].cid = -1 /\ e[nr + 1].to = st.defsucc
-                            /\ \A j \in R : ~InRanges(st.ranges, dump.reps[j]) => dump.delta[q][j] = e[nr + 1].to)>>}
+          /\ \A a \in 1..nr :
+                /\ Cardinality(EdgeOf(a - 1)) = 1
+                /\ \A k \in EdgeOf(a - 1) : \A j \in R :
+                      (st.ranges[a][1] <= dump.reps[j] /\ dump.reps[j] <= st.ranges[a][2]) => dump.delta[q][j] = e[k].to
+          /\ st.default => /\ Cardinality(EdgeOf(-1)) = 1
+                            /\ \A k \in EdgeOf(-1) : \A j \in R : ~InRanges(st.ranges, dump.reps[j]) => dump.delta[q][j] = e[k].to>>}
 
 (* ---- C13 ---- *)
 RECURSIVE FoldCalls(_, _, _)
@@ -69,25 +73,29 @@ BadBuilder(e) ==
   LET st == FoldCalls(StNew(e.calls[1].s), e.calls, 2)
       S  == Mentioned(st)
       v  == Verdict(st.trans, st.dflt, S)
-      id(s) == CHOOSE i \in 1..Len(st.order) : st.order[i] = s          \* first-mention numbering
   IN
   IF e.res = "panic" THEN {"C13:build_panicked"}
   ELSE IF e.res # "ok" THEN Failed({<<"C13:complete_conflict_free_spec_accepted", v # "MustAccept">>,
                                     <<"C13:generator_verdict", e.gen_verdict \in {"", v}>>})
   ELSE
-    LET a == e.aut n == NStates(a) IN
+    LET a == e.aut n == NStates(a)
+        \* the automaton's states carry no names: some numbering of the caller's states must explain it
+        \* (the crate numbers them in first-mention order, but the property does not ask for that)
+        Numberings == {f \in [S -> 1..n] : \A s1, s2 \in S : s1 # s2 => f[s1] # f[s2]}
+        Explains(f) ==
+          /\ a.init = f[e.calls[1].s]
+          /\ \A s \in S : a.final[f[s]] = st.fin[s]
+          /\ \A s \in S : \A j \in 1..Len(a.reps) :
+                 a.delta[f[s]][j] = f[SpecDelta(st.trans[s], st.dflt[s], a.reps[j])]
+    IN
     Failed({<<"C13:bad_spec_rejected", v # "MustReject">>,
             <<"C13:generator_verdict", e.gen_verdict \in {"", v}>>,
             <<"C13:next_total", DumpOk(a)>>,
             <<"C13:states", n = Cardinality(S)>>,
-            <<"C13:initial_state", a.init = id(e.calls[1].s)>>,
-            <<"C13:final_states", \A s \in S : id(s) <= n => a.final[id(s)] = st.fin[s]>>,
             <<"C13:num_final", e.str.num_final = Cardinality({s \in S : st.fin[s]}) /\ e.str.num_states = Cardinality(S)>>,
-            \* delta: the explicit transition covering x, else the declared default -- nothing invented
-            <<"C13:delta_as_specified",
-               v # "MustReject" /\ DumpOk(a) =>
-                 \A s \in S : \A j \in 1..Len(a.reps) :
-                    a.delta[id(s)][j] = id(SpecDelta(st.trans[s], st.dflt[s], a.reps[j]))>>})
+            \* initial state, finals and delta: the explicit transition covering x, else the declared default
+            <<"C13:automaton_as_specified",
+               (v # "MustReject" /\ DumpOk(a) /\ n = Cardinality(S)) => \E f \in Numberings : Explains(f)>>})
 
 (* ---- C04 ---- *)
 BadMinimize(e) ==
